@@ -25,10 +25,10 @@ CLAIMED = {
         note="Trusted: Coq kernel+vm_compute; ast translator for the gate kernels; numpy semantics of masks/views; group<->state link checked numerically (oracle), not proved.",
         technique="Coq proof (per-row conjugation theorems, all n) + source-to-Coq translator with generated equality lemmas + vm_compute correspondence"),
     "C01": dict(
-        text="PARTIAL proof (placement layer): Coq theorems over Model V for every reachable state and all seven merge cases: each native operation issues its engine call at exactly the register position whose recorded identity is the physical qubit the handle denotes (control/target order preserved), merges preserve the bookkeeping invariant and the identity records, sending hands over the same physical qubit, identities are never duplicated. Not proved: the composition with the engine contract (C15) and the stabilizer theorems (C13/C14) into 'joint state = ideal state'; that equation is checked on every run by an independent state-vector oracle after EVERY operation of every program (direct calls and real PB), together with exact model/implementation dump equality.",
+        text="Coq theorems over Model V for every network, program and placement history (all seven merge cases). Layer 1 (placement): each native operation issues its engine call at exactly the register position whose recorded identity is the physical qubit the handle denotes (control/target order preserved); merges preserve the bookkeeping invariant and the identity records; sending hands over the same physical qubit; identities are never duplicated. Layer 2 (C01_location_transparency): the product of the stabilizer groups of all registers of all nodes, each placed on the identities it records, equals the stabilizer group of an ideal single register running the translated program with the same coins, and the list of measurement outcomes is identical; C01_reported_outcome_possible: a reported outcome is never the impossible one (group criterion). Composition of the C13/C14 group theorems. Not formalised: stabilizer group <-> Hilbert-space vector and the Born rule (same status as C13/C14); other engines go through C15. Tie: exact model/implementation dump equality after every operation (direct calls and real PB), and an independent state-vector oracle comparing the joint state after EVERY operation.",
         design="4/C01",
-        note="Trusted: Coq kernel; in-process harness; Hilbert space not formalised (stabilizer group <-> state is textbook, checked numerically by the oracle). Theorem names carry _partial.",
-        technique="Coq proof (placement refinement with ghost qubit identities, induction over operation lists) + vm_compute correspondence + state-vector oracle"),
+        note="Trusted: Coq kernel+vm_compute; in-process harness; Hilbert space not formalised (stabilizer group <-> state is textbook, checked numerically by the oracle); the ideal machine is a specification.",
+        technique="Coq proof (placement refinement with ghost qubit identities + joint-group = ideal-group simulation, induction over operation lists) + vm_compute correspondence + state-vector oracle"),
     "C02": dict(
         text="Coq theorem over Model V: an explicit inductive invariant (per node: id uniqueness, register table consistency, positions of a register's simulated qubits injective/bounded/as many as the register size; network-wide: backing map held qubit -> simulated qubit total, injective and onto, ghost identities aligned) holds in every state reachable by ANY operation list on ANY network (failed operations included); corollaries: backed by exactly one existing simulated qubit, no sharing/no orphan, positions are a permutation of 0..k-1, ids unique, exact population deltas per operation. Tie: dump equality after every operation + an id()-based walk of the real object graph evaluating the same invariant.",
         design="4/C02",
